@@ -31,7 +31,7 @@ def run(ctx):
   ctx.assumptions += ['the in-memory TimeSeriesDatabase plugin stands for Whisper/Ceres (not installed)',
                       'log.err() in writeForever counts as "reported as an error" (property observation list)']
   for i, (cl, lag) in enumerate([('FALSE', 'FALSE'), ('TRUE', 'FALSE'), ('FALSE', 'TRUE')]):
-    consts = dict(Metrics='{1,2}', Tss='{1,2}', MaxStores=ctx.pick(3, 4), MaxFaults=2, CreateLimit=cl, LagConfigured=lag,
+    consts = dict(Metrics='{1,2}', Tss='{1,2}', MaxStores=ctx.pick(3, 4 if i == 0 else 3), MaxFaults=2, CreateLimit=cl, LagConfigured=lag,
                   PreExisting='{1}', FinalPass='TRUE', WithStop='FALSE')
     res = writercheck.model_check(ctx, 'Writer#%d' % i, consts, INVS,
                                   must=('Store', 'W_Test', 'W_PassTop', 'W_CreateLoop', 'W_Exists1', 'W_Create',
